@@ -344,7 +344,7 @@ def _exon_layouts(nexons):
                 yield lay
 
 
-def _tx_case(repo, it, S, F, exons, strand_name, cs, ce, start_frame=0):
+def _tx_case(repo, it, S, F, exons, strand_name, cs, ce, start_frame=0, skip=None):
     out = []
     n = 0
     q = lambda m: repo.fn(f"{TX}.{m}")  # noqa: E731
@@ -354,8 +354,23 @@ def _tx_case(repo, it, S, F, exons, strand_name, cs, ce, start_frame=0):
     for s, e in exons:
         a, b = max(s, cs), min(e, ce)
         if a < b:
-            cds_blocks.append((a, b))
-    if start_frame == 0:
+            if skip is not None and a < skip < b - 1:
+                # a programmed +1 frameshift inside the exon: the CDS leaves out one base of the transcript
+                cds_blocks += [(a, skip), (skip + 1, b)]
+            else:
+                cds_blocks.append((a, b))
+    if skip is not None:
+        start_frame = start_frame or 0
+        order = list(range(len(cds_blocks)))
+        if strand_name == "MINUS":
+            order.reverse()
+        fr, before = {}, 0
+        for j, i in enumerate(order):
+            fr[i] = before % 3
+            before += cds_blocks[i][1] - cds_blocks[i][0]
+        frames = [F[{0: "ZERO", 1: "ONE", 2: "TWO"}[fr[i]]] for i in range(len(cds_blocks))]
+        desc = f"exons={list(exons)} cds={cds_blocks} (base {skip} skipped inside an exon) {strand_name}"
+    elif start_frame == 0:
         frames = [F["ZERO"]] * len(cds_blocks)
         desc = f"exons={list(exons)} cds={cds_blocks} {strand_name}"
     else:
@@ -616,6 +631,11 @@ def rk_interpreted(ctx):
                 for ce in bounds:
                     if cs < ce and cs in pos and (ce - 1) in pos:
                         specs.append((tuple(lay), sn, cs, ce))
+    # a CDS that is not one stretch of the transcript: one base inside an exon is left out (programmed frameshift)
+    for lay, cs, ce, skips in (([(4, 20)], 6, 18, (9, 12)), ([(4, 20)], 4, 20, (10,)), ([(3, 12), (15, 24)], 5, 22, (8, 18)), ([(3, 12), (15, 24)], 3, 24, (6,))):
+        for sn in ("PLUS", "MINUS"):
+            for sk in skips:
+                specs.append((tuple(lay), sn, cs, ce, 0, sk))
     r.floor("C06.RK", "transcripts (layout x strand x CDS placement)", len(specs), 150)
 
     def work(spec):
